@@ -512,7 +512,18 @@ class Executor:
                     kwargs[k] = v
             else:
                 kwargs[kw.arg] = self.eval(kw.value, fr)
-        return self.call(fn, args, kwargs, n)
+        temps = [a for a in list(args) + list(kwargs.values()) if type(a).__name__ == 'FileHandle' and not a.closed]
+        # a file object that exists only as an argument value (f(path.open('w'))) is a temporary: CPython closes it
+        # (reference count) as soon as the call returns or unwinds (A-refcount)
+        temps = [t for t, an in zip(list(args) + list(kwargs.values()), list(n.args) + [k.value for k in n.keywords])
+                 if type(t).__name__ == 'FileHandle' and not t.closed and isinstance(an, ast.Call)] if temps else []
+        if not temps:
+            return self.call(fn, args, kwargs, n)
+        try:
+            return self.call(fn, args, kwargs, n)
+        finally:
+            for t in temps:
+                t.exit(self)
 
     def make_super(self, n, fr):
         f = fr
